@@ -5,6 +5,7 @@
 import Nlmodel.Model.Pipeline
 import Nlmodel.Proofs.Lemmas.SimHOps
 import Nlmodel.Proofs.Lemmas.FloatTextBuiltin
+import Nlmodel.Proofs.Lemmas.Utf8All
 namespace Nl
 namespace C14
 
@@ -208,6 +209,11 @@ theorem C14_float_of_string_of_float (x : F64.Bits) (hx : F64.isNaN x = false) :
     builtinCore .string (.float x) = .ok (.str (F64.toDecimal x)) ∧
     builtinCore .float (.str (F64.toDecimal x)) = .ok (.float x) :=
   F64T.float_string_roundtrip x hx
+
+/-- `lengte` of a text computed ON ITS UTF-8 BYTES the way `builtins.rs` does (`chars().count()`: the bytes that are
+    not continuation bytes) is the model's result, the number of characters — for every text -/
+theorem C14_lengte_counts_characters_on_bytes (s : Text) :
+    builtinCore .length (.str s) = .ok (.int (Utf8.countChars (Utf8.encode s))) := Utf8.length_bytes s
 
 end C14
 end Nl
